@@ -411,7 +411,12 @@ impl Visitor<Diagnostic> for RuleGraphReferenceableElements {
                     InitialValueAssignmentKind::Simple(_) => {}
                     InitialValueAssignmentKind::String(_) => {}
                     InitialValueAssignmentKind::EnumeratedValues(_) => {}
-                    InitialValueAssignmentKind::EnumeratedType(_) => {}
+                    InitialValueAssignmentKind::EnumeratedType(et) => {
+                        // `name : TYPE := VALUE` is a reference to TYPE whatever TYPE turns out to be
+                        let from = self.declarations.add_node(from);
+                        let to = self.declarations.add_node(&et.type_name.name);
+                        self.declarations.graph.add_edge(to, from, ());
+                    }
                     InitialValueAssignmentKind::FunctionBlock(fb) => {
                         // We only care about these because these may be references to a function block
                         let from = self.declarations.add_node(from);
